@@ -202,22 +202,25 @@ def decodeTail (f : FileID) (hasWeb : Bool) (sv : Nat) (b : Bytes) : Except DErr
       pure { f with pss := p }
     else pure f
 
+/-- `FileID.decodeLatestFileID` once the sub-version (last byte of the buffer) is known. -/
+def decodeLatestBody (sv : Nat) (b : Bytes) : Except DErr FileID := do
+  let (typeID, b) ← rdU32 b
+  let hasWeb : Bool := typeID / webLocationFlag % 2 = 1
+  let hasRef : Bool := typeID / fileReferenceFlag % 2 = 1
+  let typeID := typeID - (if hasWeb then webLocationFlag else 0) - (if hasRef then fileReferenceFlag else 0)
+  if typeID ≥ lastType then throw .unknownType
+  let (dc, b) ← rdU32 b
+  let f : FileID := { type := typeID, dc := dc }
+  if hasRef then
+    let (r, b1) ← rdBytes b
+    decodeTail { f with fileRef := r } hasWeb sv b1
+  else decodeTail f hasWeb sv b
+
 /-- `FileID.decodeLatestFileID`. -/
 def decodeLatest (b : Bytes) : Except DErr FileID :=
   match b.getLast? with
   | none => .error .eof
-  | some sv => do
-    let (typeID, b) ← rdU32 b
-    let hasWeb : Bool := typeID / webLocationFlag % 2 = 1
-    let hasRef : Bool := typeID / fileReferenceFlag % 2 = 1
-    let typeID := typeID - (if hasWeb then webLocationFlag else 0) - (if hasRef then fileReferenceFlag else 0)
-    if typeID ≥ lastType then throw .unknownType
-    let (dc, b) ← rdU32 b
-    let f : FileID := { type := typeID, dc := dc }
-    if hasRef then
-      let (r, b1) ← rdBytes b
-      decodeTail { f with fileRef := r } hasWeb sv.toNat b1
-    else decodeTail f hasWeb sv.toNat b
+  | some sv => decodeLatestBody sv.toNat b
 
 /-- `DecodeFileID` after base64 (`data` = base64-decoded bytes). -/
 def decodeRaw (data : Bytes) : Except DErr FileID :=
